@@ -83,12 +83,8 @@ func propDefs() map[string]propDef {
 	syncmap := []unit{u("internal/common.(*GenericSyncMap).Load"), u("internal/common.(*GenericSyncMap).Has"), u("internal/common.(*GenericSyncMap).Store"),
 		u("internal/common.(*GenericSyncMap).Delete"), u("internal/common.(*GenericSyncMap).DeleteUnsafe"), u("internal/common.(*GenericSyncMap).Len"),
 		u("internal/common.(RemoteUserLogin).Validate")}
-	noDisp := func(us []unit) []unit {
-		for i := range us {
-			us[i].Exclude = []string{`UserOK\.1\.2$`}
-		}
-		return us
-	}
+	// C01 and C02 prove the whole invariant (including the disposal clause that C09 is about): it is inductive only as a whole
+	noDisp := func(us []unit) []unit { return us }
 	m["C01"] = propDef{ID: "C01", Level: "proof",
 		Units: append(noDisp(trk(
 			[]string{`^ensures:(c01|inv|prefix|invalid|err)`, `^inv-`, `^pre:`, safetyRe},
@@ -124,10 +120,10 @@ func propDefs() map[string]propDef {
 	}
 	m["C09"] = propDef{ID: "C09", Level: "proof",
 		Units: trk(
-			[]string{`^ensures:inv:TrackerInv.*UserOK\.1\.2$`, `^ensures:(bind|bindkeep|c01)`, `^inv-`},
-			[]string{`^ensures:inv:TrackerInv.*UserOK\.1\.2$`, `^ensures:(emit|untracked|open)`},
+			[]string{`^ensures:inv:TrackerInv.*UserOK\.1\.2(\.|:|$)`, `^ensures:(bind|bindkeep|c01)`, `^inv-`},
+			[]string{`^ensures:inv:TrackerInv.*UserOK\.1\.2(\.|:|$)`, `^ensures:(emit|untracked|open)`},
 			nil, nil,
-			[]string{`^ensures:inv:TrackerInv.*UserOK\.1\.2$`}, []string{`^ensures:inv:TrackerInv.*UserOK\.1\.2$`}),
+			[]string{`^ensures:inv:TrackerInv.*UserOK\.1\.2(\.|:|$)`}, []string{`^ensures:inv:TrackerInv.*UserOK\.1\.2(\.|:|$)`}),
 		Explain: "invariant clause I7: a tracked session whose credential-disposal record has been processed (ghost g_disp, set when the record is processed, reset when a LOGIN record opens a new incarnation of the ID) is never bound — i.e. once the disposal record has been emitted (directly, or released from the hold queue by a late login) the session has left the table, so no later login can be bound to it and a reused PID binds to the next session opened by it; AuditdEvent's postcondition: CRED_DISP on a bound session <=> the session is removed",
 	}
 	m["C03"] = propDef{ID: "C03", Level: "proof",
@@ -222,13 +218,15 @@ func propDefs() map[string]propDef {
 		Explain: "causal-order half only: channel message invariant of the logins channel 'the login's event has already been written' (ghost writtenat, stable because out only grows) is proved at every send (the hand-off comes after the successful Write of the same event object) and assumed at the receive; the tracker preserves 'every login it holds has been written' (Causal) in all four operations and every UserAction it appends sits after the UserLogin event whose identity it carries (writtenat(out[i].by) <= i); one Write per emitted event (C02/C06); read off RunNamedPipe: one EventWriter shared by both processors, one logins channel",
 	}
 	m["C14"] = propDef{ID: "C14", Level: "proof",
-		Units: trk(
+		Units: append(trk(
 			nil,
 			[]string{`^assert_at:`},
 			[]string{`^assert_at:`},
 			all, nil, nil),
+			// the record group is coalesced as received and the coalesced event is what the tracker is handed
+			u("processors/auditd.(*reassemblerCB).ReassemblyComplete", `^ensures:(once|handed|skipped)`, `^assert_at:`)),
 		Assume:  []string{"what aucoalesce puts into Result/Summary for a record group (dependency)"},
-		Explain: "postcondition of the real toAuditEvent: type UserAction, component auditd, timestamp == the audit event's, auditId == its session, outcome succeeded iff Result == success, metadata action/how/object from the summary, process_args present iff the event has arguments, subjects a fresh copy equal to the login's (loop invariant of the copy loop), source and target the login's; frame: nothing reachable from the login or the audit event is modified; the same relation is asserted at every EventWriter.Write of the package",
+		Explain: "postcondition of the real toAuditEvent: type UserAction, component auditd, timestamp == the audit event's, auditId == its session, outcome succeeded iff Result == success, metadata action/how/object from the summary, process_args present iff the event has arguments, subjects a fresh copy equal to the login's (loop invariant of the copy loop), source and target the login's; frame: nothing reachable from the login or the audit event is modified; the same relation is asserted at every EventWriter.Write of the package; ReassemblyComplete: the record group is passed to aucoalesce.CoalesceMessages exactly as received (same length, same records in the same order — asserted at the call), and the event handed to the tracker is the coalesced event itself unless it predates the start time",
 	}
 	m["C16"] = propDef{ID: "C16", Level: "proof",
 		Units: append(trk([]string{`^ensures:agekept`}, []string{`^ensures:(added|open|agekept)`}, nil, nil, all, all),
